@@ -393,6 +393,8 @@ func (c *tsCtx) stmt(s ast.Stmt, k tsK) trLines {
 		return c.ifStmt(x, k)
 	case *ast.SwitchStmt:
 		return c.switchStmt(x, k)
+	case *ast.TypeSwitchStmt:
+		return c.typeSwitch(x, k)
 	case *ast.ForStmt:
 		return c.forStmt(x, k)
 	case *ast.RangeStmt:
@@ -416,8 +418,8 @@ func (c *tsCtx) stmt(s ast.Stmt, k tsK) trLines {
 }
 
 func (c *tsCtx) returnStmt(x *ast.ReturnStmt) trLines {
-	if len(x.Results) == 1 && c.results.Len() > 1 {
-		// return f(…) of a call with several results
+	if len(x.Results) == 1 && (c.results.Len() > 1 || c.tspIsMutCall(x.Results[0])) {
+		// return f(…) of a call with several results (or of one that assigns through its receiver)
 		call, ok := trUnparen(x.Results[0]).(*ast.CallExpr)
 		if !ok {
 			trFail(x.Pos(), "return of a multi-valued expression that is not a call is outside the subset")
@@ -462,6 +464,9 @@ func (c *tsCtx) callResults(call *ast.CallExpr, nres int, use func(projs []strin
 			st := c.fresh("r")
 			tup := c.typeOf(call).(*types.Tuple)
 			return tsWrapPre(pre, trLet(st, "", trOne(v), use([]string{st + ".1", st + ".2"}, []types.Type{tup.At(0).Type(), tup.At(1).Type()})))
+		}
+		if tspIsWriterCall(c.info(), call) {
+			return c.tspFinish(c.tspWriterCall(call), call.Pos(), nres, use)
 		}
 		trFail(call.Pos(), "a call of %s with several results is outside the subset", trSrc(call.Fun))
 	}
@@ -560,7 +565,7 @@ func (c *tsCtx) exprStmt(x *ast.ExprStmt, k tsK) trLines {
 		pre := c.takePre()
 		return tsWrapPre(pre, c.store(ci.sel.X, val, x.Pos(), k))
 	}
-	if ci.tf != nil {
+	if ci.tf != nil || tspIsWriterCall(c.info(), call) {
 		return c.callResults(call, -1, func([]string, []types.Type) trLines { return k() })
 	}
 	c.expr(call)
@@ -641,12 +646,15 @@ func (c *tsCtx) assign(x *ast.AssignStmt, k tsK) trLines {
 		pre := c.takePre()
 		return tsWrapPre(pre, c.store(x.Lhs[0], val, x.Pos(), k))
 	}
+	if tl := c.tspAssertAssign(x, k); tl != nil {
+		return tl
+	}
 	// a call of a translated function (one or several results)
 	if len(x.Rhs) == 1 {
 		if call, ok := trUnparen(x.Rhs[0]).(*ast.CallExpr); ok {
 			ci := c.resolveCall(call)
 			isDecode := ci.fobj != nil && ci.fobj.FullName() == "unicode/utf8.DecodeRuneInString"
-			if (ci.tf != nil && (len(ci.tf.mut) > 0 || len(x.Lhs) > 1)) || (isDecode && len(x.Lhs) == 2) {
+			if (ci.tf != nil && (len(ci.tf.mut) > 0 || len(x.Lhs) > 1)) || (isDecode && len(x.Lhs) == 2) || tspIsWriterCall(c.info(), call) {
 				return c.callResults(call, len(x.Lhs), func(projs []string, tys []types.Type) trLines {
 					if x.Tok == token.DEFINE {
 						for _, l := range x.Lhs {
